@@ -137,6 +137,8 @@ func (c *Ctx) runJobs(jobs []job, each func(jc *jobCase) (int64, int64, *Violati
 		}
 		c.Eval(fe)
 		c.Nontrivial(fn)
+		c.Outcome("points that are non-trivial by the check's rule", fn)
+		c.Outcome("other points (oracle evaluated, trivially satisfied)", fe-fn)
 	}
 }
 
